@@ -7,6 +7,9 @@
 //   ->  compat=<views_are_compatible<V1,V2>>  A:<ok|err:bad_cast|...> [r=<returned bool>] dst=<hex> src=<hex>
 //        | C:<ok [r=] dst=<hex> | n/a>      (the same call on the concrete views; n/a when it is not defined for the pair)
 //        | D0=<destination before the call>
+//     When the pair is one for which the call is defined (compatible, or a converting algorithm) and the concrete call
+//     terminates the process (copy_pixels / equal_pixels assert equal dimensions), both paths are probed in forked
+//     children:  compat=.. A:<assert|ok...> | C:assert | D0=..   -- the run-time typed call must die the same way.
 #pragma once
 #include "c14.hpp"
 #ifndef BIN_MODE_MASK
@@ -28,6 +31,35 @@ std::string run_bin(Alg const& alg, std::string const& mode, std::string const& 
         AnyImg a(make<I1>(w1, h1, s1)), b(make<I2>(w2, h2, s2));
         toggle_at(gil::view(v2::get<I2>(b)), tx, ty);
         std::string D0 = dump_any(gil::const_view(b), d2);
+        auto call_any = [&]() -> std::string {
+            if (false) {}
+#if BIN_MODE_MASK & 1
+            else if (mode == "aa") return alg(gil::view(a), gil::view(b));
+#endif
+#if BIN_MODE_MASK & 2
+            else if (mode == "ka") return alg(gil::const_view(a), gil::view(b));
+#endif
+#if BIN_MODE_MASK & 4
+            else if (mode == "ac") return alg(gil::view(a), gil::view(v2::get<I2>(b)));
+#endif
+#if BIN_MODE_MASK & 8
+            else if (mode == "ca") return alg(gil::view(v2::get<I1>(a)), gil::view(b));
+#endif
+            return "other-tu";
+        };
+        if constexpr (compat || !Alg::needs_compat) {
+            if (Alg::needs_equal_dims && (gil::view(v2::get<I1>(a)).dimensions() != gil::view(v2::get<I2>(b)).dimensions())) {
+                bool cdies = dies([&] { alg(gil::view(v2::get<I1>(a)), gil::view(v2::get<I2>(b))); });
+                if (cdies) {
+                    bool adies = dies([&] { call_any(); });
+                    std::string A = "A:assert";
+                    if (!adies) { std::string st = "ok", r; try { r = call_any(); } catch (std::exception const& e) { st = exc_name(e); r = ""; }
+                                  A = "A:" + st + r + " dst=" + dump_any(gil::const_view(b), d2); }
+                    out = std::string("compat=") + (compat ? "1" : "0") + " " + A + " | C:assert | D0=" + D0;
+                    return;
+                }
+            }
+        }
         std::string st = "ok", r;
         try {
             if (false) {}
